@@ -27,7 +27,10 @@ Inductive ncase :=
   (* XNumber.MarshalJSON gave js; XNumber.UnmarshalJSON of it gave back *)
 | KNumStored (m e : Z) (js : text) (back : option (Z * Z))
   (* XNumber.UnmarshalJSON on an arbitrary number token *)
-| KNumUnmarshal (s : text) (r : option (Z * Z)).
+| KNumUnmarshal (s : text) (r : option (Z * Z))
+  (* the same for tokens of thousands of digits: the coefficient is compared modulo 1000000007 (a numeral of
+     thousands of digits in a cases file costs more to read than the case costs to evaluate) *)
+| KNumUnmarshalBig (s : text) (r : option (Z * Z)).
 
 Definition ncheck (k : ncase) : bool :=
   match k with
@@ -39,6 +42,12 @@ Definition ncheck (k : ncase) : bool :=
   | KNumTextEq m e s o => Bool.eqb (equal_num_text (Dec m e) s) o
   | KNumStored m e js back => text_eqb (num_marshal (Dec m e)) js && opt_dec_same (num_unmarshal js) back
   | KNumUnmarshal s r => opt_dec_same (num_unmarshal s) r
+  | KNumUnmarshalBig s r =>
+      match num_unmarshal s, r with
+      | None, None => true
+      | Some d, Some (m, e) => ((mant d mod 1000000007 =? m) && (dexp d =? e))%Z
+      | _, _ => false
+      end
   end.
 
 Fixpoint mismatches_from {A} (chk : A -> bool) (i : N) (ks : list A) : list N :=
@@ -59,6 +68,14 @@ Fixpoint offset_of (tbl : ztable) (x : Z) : Z :=
   match tbl with
   | [] => 777777%Z      (* outside the sampled periods: a value no zone has, so that a consultation shows up *)
   | (s, e, o) :: rest => if ((s <=? x) && (x <? e))%Z then o else offset_of rest x
+  end.
+
+(* end of the zone period an instant lies in (Time.ZoneBounds); the far-future bound stands for "no end" *)
+Fixpoint zend_of (tbl : ztable) (x : Z) : option Z :=
+  match tbl with
+  | [] => None
+  | (s, e, o) :: rest => if ((s <=? x) && (x <? e))%Z then (if (e =? 1152921504606846976)%Z then None else Some e)
+                         else zend_of rest x
   end.
 
 Definition opt_Z_same (a b : option Z) : bool :=
@@ -95,10 +112,10 @@ Definition dcheck (k : dcase) : bool :=
   match k with
   | KDt vz ez e t iso_txt iso_back fmt_txt fmt_back =>
       text_eqb (iso (offset_of vz) t) iso_txt
-      && opt_Z_same (datetime_from_string (offset_of ez) e iso_txt) iso_back
+      && opt_Z_same (datetime_from_string (offset_of ez) (zend_of ez) e iso_txt) iso_back
       && text_eqb (format_datetime (offset_of ez) e t) fmt_txt
-      && opt_Z_same (datetime_from_string (offset_of ez) e fmt_txt) fmt_back
-  | KDtParse ez e s r => opt_Z_same (datetime_from_string (offset_of ez) e s) r
+      && opt_Z_same (datetime_from_string (offset_of ez) (zend_of ez) e fmt_txt) fmt_back
+  | KDtParse ez e s r => opt_Z_same (datetime_from_string (offset_of ez) (zend_of ez) e s) r
   | KDate e y m d rtxt ftxt rback fback =>
       text_eqb (render_date (y, m, d)) rtxt && text_eqb (format_date e (y, m, d)) ftxt
       && opt_date_same (date_from_string e rtxt) rback && opt_date_same (date_from_string e ftxt) fback
@@ -108,7 +125,7 @@ Definition dcheck (k : dcase) : bool :=
       && opt_tod_same (time_from_string rtxt) rback && opt_tod_same (time_from_string ftxt) fback
   | KTimeParse s r => opt_tod_same (time_from_string s) r
   | KField ez e fh fm fs fns raw r =>
-      match field_parse (Tod fh fm fs fns) (offset_of ez) e raw, r with
+      match field_parse (Tod fh fm fs fns) (offset_of ez) (zend_of ez) e raw, r with
       | None, None => true
       | Some (n, d), Some (n', d') => opt_dec_same n n' && opt_Z_same d d'
       | _, _ => false
